@@ -115,8 +115,8 @@ def _item_of_match(m, item_of):
     return a if a == b else 0
 
 
-def _empty_run(raised, nclips):
-    return {"raised": raised, "score": [], "metrics": [], "extra": 0,
+def _empty_run(raised, nclips, msg=""):
+    return {"raised": raised, "msg": msg, "score": [], "metrics": [], "extra": 0,
             "clips": [{"n": 0, "score": [], "metrics": [], "matches": []} for _ in range(nclips)]}
 
 
@@ -146,7 +146,7 @@ def _call(case, T, preds, anns, clip_of, item_of):
             warnings.simplefilter("ignore")          # library warnings are not failures
             ev = TASKS[case["task"]](preds, anns, T)
     except Exception as ex:                           # an exception of the library is an observation
-        return None, _empty_run(type(ex).__name__, len(case["clips"]))
+        return None, _empty_run(type(ex).__name__, len(case["clips"]), str(ex)[:160])
     return ev, _encode(ev, len(case["clips"]), clip_of, item_of)
 
 
@@ -240,7 +240,11 @@ def finding_key(o, clause):
         return f"{clause}/{o['in']['task']}"
     c, out = o["in"], o["out"]
     exc = out["fwd"]["raised"] or out["rev"]["raised"]
-    if c["C"] == 1:
+    msg = out["fwd"].get("msg") or out["rev"].get("msg") or ""
+    # scikit-learn's refusals of a single label column: top_k_accuracy_score / jaccard_score(average="samples") / log_loss
+    binary = any(t in msg for t in ("is binary while y_score is 2d", "Samplewise metrics are not available",
+                                    "y_true contains only one label"))
+    if c["C"] == 1 and binary:
         what = "vocab1"
     elif c["task"] in ("sec", "sed") and any(len(m) == 0 for m in c["clips"]):
         what = "emptyclip"
